@@ -129,6 +129,7 @@ def route_grammars(R):
                 R.Rule('L3', R.Let('x', R.Str('1'), R.Seq(R.Let('x', R.Str('2'), R.Py('x')), R.Py('x')))),
                 # a parameter that shadows a rule, re-bound by a `let` inside a template argument (a helper
                 # function of its own) that has ended before the parameter is used again
+                R.Rule('L4', R.Let('y', R.Str('1'), R.Seq(R.Let('y', R.Str('2'), R.Ref('y')), R.Ref('y')))),
                 R.Rule('NS', R.Right(R.Call(R.Ref('Parens'), [R.Let('Item', R.Ref('Number'), R.Ref('Item'))]),
                                      R.Ref('Item')), params=['Item'])]
     G.append(('shadow', shadow, {}))
@@ -1121,6 +1122,26 @@ def route_ignored_sets(R, bad, stats):
             # (their literals do, after a match: that is the documented "after every literal")
 
 
+def wrapper_owners(bad, stats):
+    """An argument wrapped by `_wrap_string_literal` / `_wrap_byte_literal` is a memo-key component that
+    compares by its text / value alone.  That is sound only for the classes whose parse function is
+    determined by that value (Str, Byte): no other class may emit the wrappers."""
+    owners = {'_wrap_string_literal': ('sourcer/expressions/str.py', 'Str'),
+              '_wrap_byte_literal': ('sourcer/expressions/byte.py', 'Byte')}
+    for rel in load.expression_files() + ['sourcer/translator.py']:
+        tree = load.parse(rel)
+        for fname, fn in load.functions_of(tree).items():
+            for n in ast.walk(fn):
+                if isinstance(n, ast.Constant) and n.value in owners:
+                    stats['wrapper_sites'] = stats.get('wrapper_sites', 0) + 1
+                    orel, ocls = owners[n.value]
+                    if not (rel == orel and fname.split('.')[0] == ocls):
+                        bad('ARG-wrap-owner', f'{rel}:{fname} emits {n.value}: a wrapped argument compares (and is '
+                                              f'memoised) by its value alone, so two different expressions with the '
+                                              f'same text share one memo entry per position; only {ocls} may be '
+                                              f'wrapped')
+
+
 def who_may_call_ignored(bad, stats):
     """`utils.skip_ignored` is reachable (call graph over the generator sources, callees resolved by
     name) only from the `_compile` of the literal classes - directly or through helper functions
@@ -1587,6 +1608,7 @@ def run(rep, pid, rules, label_filter=None, always=()):
     start_prefix_and_ignored_rule(R, mods, bad, stats)
     route_ignored_sets(R, bad, stats)
     who_may_call_ignored(bad, stats)
+    wrapper_owners(bad, stats)
     error_functions(mods, bad, stats)
     class_tables(bad=bad, stats=stats)
     class_members(R, bad, stats)
